@@ -69,6 +69,12 @@ func stressTableText() string {
 	b.WriteString("route add rw rr.example/rw http://w2:80/\n")
 	b.WriteString("route add rw rr.example/rw http://w3:80/\n")
 	b.WriteString(`route add red red.example/ https://to.example$path opts "redirect=301"` + "\n")
+	// redirect routes of every template form, reachable from any host (no host in the route)
+	b.WriteString(`route add red-p /red-p https://to.example$path opts "redirect=301"` + "\n")
+	b.WriteString(`route add red-h /red-h https://$host/ opts "redirect=301"` + "\n")
+	b.WriteString(`route add red-hl /red-hl https://$host/login opts "redirect=301"` + "\n")
+	b.WriteString(`route add red-b /red-b https://$host$path opts "redirect=301"` + "\n")
+	b.WriteString(`route add red-f /red-f https://to.example/fixed opts "redirect=301"` + "\n")
 	return b.String()
 }
 
@@ -252,14 +258,33 @@ func childRun(raw json.RawMessage) (interface{}, error) {
 							firstMismatch.CompareAndSwap(nil, "target not in any table: "+tg.Service)
 						}
 					case kindRedirect:
-						path := fmt.Sprintf("/g%d/i%d", g, i)
-						req := newRequest("red.example", path)
+						// every goroutine alternates between two hosts nobody else uses; the five template forms
+						// take turns; the expected Location is a function of this request alone
+						host := fmt.Sprintf("h%d%c.example", g, "ab"[rnd.Intn(2)])
+						var path, want string
+						switch rnd.Intn(5) {
+						case 0:
+							path = fmt.Sprintf("/red-p/g%d/i%d", g, i)
+							want = "https://to.example" + path
+						case 1:
+							path = "/red-h"
+							want = "https://" + host + "/"
+						case 2:
+							path = fmt.Sprintf("/red-hl/i%d", i)
+							want = "https://" + host + "/login"
+						case 3:
+							path = fmt.Sprintf("/red-b/g%d/i%d", g, i)
+							want = "https://" + host + path
+						default:
+							path = "/red-f"
+							want = "https://to.example/fixed"
+						}
+						req := newRequest(host, path)
 						w := &nullWriter{h: http.Header{}}
 						px.ServeHTTP(w, req)
-						want := "https://to.example" + path
 						if got := w.h.Get("Location"); got != want || w.code != 301 {
 							atomic.AddInt64(&mismatches, 1)
-							firstMismatch.CompareAndSwap(nil, fmt.Sprintf("want %s got %d %s", want, w.code, got))
+							firstMismatch.CompareAndSwap(nil, fmt.Sprintf("%s%s: want %s got %d %s", host, path, want, w.code, got))
 						}
 					}
 				}()
